@@ -236,7 +236,13 @@ def run(ctx):
     # ---- R5 default kinds -----------------------------------------------------------------------
     ctx.rule("C11.R5", "default-kind table equals the specification's for every kind; every arm that can receive a default checks it (unions and references through the one table)", floor=14)
     dm = p.func("_schema_py:_default_matches_schema")
-    table = default_table(dm)
+    mods = [ps.mod] + [m for m in p.modules.values() if m is not ps.mod]
+    guards.HOOK["call"] = guards.program_call_evaluator(p, mods)
+    guards.HOOK["value"] = guards.program_call_evaluator(p, mods, want_value=True)
+    try:
+        table = default_table(dm)
+    finally:
+        guards.HOOK["call"] = guards.HOOK["value"] = None
     for kind, want in sorted(spec.DEFAULT_KINDS.items()):
         wanted = {name for name, rep in REPS if isinstance(rep, tuple({"NoneType": type(None), "bool": bool, "int": int, "float": float, "str": str, "list": list, "dict": dict}[t] for t in want.split("|")))}
         got = table.get(kind)
@@ -262,13 +268,13 @@ def run(ctx):
     uses = [c for c in ast.walk(ps.node) if isinstance(c, ast.Call) and isinstance(c.func, ast.Name) and getattr(p.resolve_func(ps.mod, c.func), "id", None) in parts]
     with_table = [c for c in uses if c.func.id == dm.name and len(c.args) >= 3 and norm(c.args[2]) == R.named]
     rd = p.maybe_func("_schema_py:_raise_default_value_error")
-    mods = [ps.mod] + [m for m in p.modules.values() if m is not ps.mod]
     guards.HOOK["call"] = guards.program_call_evaluator(p, mods)
     guards.HOOK["value"] = guards.program_call_evaluator(p, mods, want_value=True)
     try:
         # sites (outside the kind arms for named and container kinds) whose guard, evaluated on one representative
         # per JSON kind for each primitive type, raises the default error exactly where the specification rejects
         prim_sites = 0
+        prim_undecided = 0
         named_arm_nodes = {id(n) for k in ("array", "map", "enum", "fixed", "record", "error") if R.arms.get(k) is not None for n in arm_nodes(R.arms[k])}
         for n in walk_local(ps.node):
             if isinstance(n, ast.Call) and isinstance(n.func, ast.Name) and rd is not None and p.resolve_func(ps.mod, n.func) is rd and id(n) not in named_arm_nodes:
@@ -283,11 +289,18 @@ def run(ctx):
                     for name, rep in REPS:
                         env = {R.default: rep, R.tvar: kind, R.schema: kind}
                         vals = [guards.eval_bool(t, env) for t in about]
-                        if any(v is None for v in vals) or all(vals) != (not isinstance(rep, types)):
+                        if any(v is None for v in vals):
+                            good = None
+                        elif good and all(vals) != (not isinstance(rep, types)):
                             good = False
                 if good:
                     prim_sites += 1
-        ctx.check("C11.R5", "the table is applied in the union arm and the reference arm with the name table, and in the primitive arms", len(with_table) >= 2 and prim_sites >= 2, ps.where(), f"_parse_schema: {len(with_table)} uses of the default table with the name table, {prim_sites} primitive arms whose default check follows the table", "an arm that can receive a default does not check it, or checks a union / reference without the name table")
+                elif good is None:
+                    prim_undecided += 1
+        if prim_sites < 2 and prim_undecided:
+            ctx.unrecognised("C11.R5", "default checks of the primitive arms", ps.where(), f"{prim_undecided} guard(s) of the default error could not be evaluated on the representatives")
+        else:
+            ctx.check("C11.R5", "the table is applied in the union arm and the reference arm with the name table, and in the primitive arms", len(with_table) >= 2 and prim_sites >= 2, ps.where(), f"_parse_schema: {len(with_table)} uses of the default table with the name table, {prim_sites} primitive arms whose default check follows the table", "an arm that can receive a default does not check it, or checks a union / reference without the name table")
         for kind, typ in (("array", list), ("map", dict), ("enum", str), ("fixed", str), ("record", dict)):
             arm = R.arms.get(kind)
             ok = False
